@@ -129,6 +129,8 @@ func init() {
 		case 25:
 			f, r := types.CstrTokenR(ab(args[1]), ab(args[2]))
 			return two(f, r)
+		case 26, 27: // ReadLine over failing readers, FileFindRecord on real files: c18io.go
+			return c18io(args)
 		}
 		return []string{"9"}
 	}})
